@@ -199,6 +199,13 @@ theorem tieA_iterator_UplinkMacCommand (data : List Nat) :
   rw [h]
   exact gRun_tie _ _ _ TieA.FrameUplinkMacCommand.Q TieA.FrameUplinkMacCommand.Q_down TieA.FrameUplinkMacCommand.P_tie _ data false trivial
 
+/-! non-vacuity: a concrete stream through the regenerated iterator (CID and payload octets of every item, `none` = the
+error item; the unread rest and the `errored` flag; budget not exhausted) -/
+example : (runFuelOf Gen.MacCmdFnUplinkMacCommand.MacCommands.next (4 + 2) ⟨[3, 7, 6, 85], false⟩).map
+    (fun r => (r.1.map (fun i => (TieA.FrameUplinkMacCommand.itemOf i).toOption.map (fun c => (c.1, c.2.2.2))), TieA.FrameUplinkMacCommand.stOf r.2.1, r.2.2))
+    = some ([some (3, [7]), none], ([6, 0x55], true), false) := by decide
+
+
 #print axioms tieA_parse_one_UplinkMacCommand
 #print axioms tieA_next_UplinkMacCommand
 #print axioms tieA_iterator_UplinkMacCommand
